@@ -16,15 +16,19 @@
 (*   G (Gram)         = M / Ld    M integer k x k matrix                    *)
 (*   hist                         bag of the features counted in G, as a    *)
 (*                                set of <<g, multiplicity>>                *)
-(* An agent is [layer, dim, N, D, M, hist]: `layer` is the number of        *)
+(* An agent is [layer, dim, N, D, M, hist, lam]: `layer` is the number of   *)
 (* parameters of the output layer of its network, `dim` the size of its     *)
-(* confidence matrix.  Checkpoint files hold the same record.               *)
+(* confidence matrix, `lam` = <<Ln, Ld>> ITS OWN lambda (the members of a   *)
+(* population may have different ones: a checkpoint written by an agent     *)
+(* with another lambda is loaded, lambda is listed in the hyper-parameter   *)
+(* mutation configuration).  Checkpoint files hold the same record.         *)
 (*                                                                         *)
 (* Protocol: which operations may (re-)initialise the matrix and which      *)
 (* carry it over.  The property allows an operation that rebuilds the       *)
 (* agent (mutation, clone, reload) either to carry the matrix (only if its  *)
-(* size still matches the output layer) or to start again from (1/lambda) I *)
-(* of the right size; decisions update it, learn steps leave it alone.      *)
+(* size still matches the output layer and lambda is still the one it was    *)
+(* built with) or to start again from (1/lambda) I of the right size;        *)
+(* decisions update it, learn steps and evaluation runs leave it alone.      *)
 (* Anything else (stale size, sharing, partial copies) is not a behaviour   *)
 (* of this specification.                                                   *)
 (***************************************************************************)
@@ -39,7 +43,9 @@ CONSTANTS NSlots,      \* agents live in slots 1..NSlots
           Kinds,       \* mutation kinds explored by the model checker (subset of MutKinds)
           MaxDec,      \* bound: decisions counted in one matrix of size 1, 2
           MaxDecHi,    \* bound: decisions counted in one matrix of size >= 3
-          MaxOps       \* bound: operations
+          MaxOps,      \* bound: operations
+          Hetero       \* TRUE: agents are created with / hyper-parameter mutations move to any lambda of Lams
+                       \* FALSE: every agent of a behaviour has the lambda chosen at Init
 
 VARIABLES lam, ag, fs, nops, act
 vars == <<lam, ag, fs, nops, act>>
@@ -52,8 +58,7 @@ Nil  == [nil |-> TRUE]
 Live(x) == x # Nil
 Slots == 1..NSlots
 Files == 1..NFiles
-Ln == lam[1]
-Ld == lam[2]
+LamChoices == IF Hetero THEN Lams ELSE {lam}
 MutKinds == {"none", "arch", "param", "act", "hp"}
 
 --------------------------------------------------------------------------------
@@ -98,9 +103,9 @@ BagGram(B, k) == IF B = {} THEN Idm(k, 0)
                       IN MatAdd(MatScale(Outer(p[1], p[1], k), p[2], k), BagGram(B \ {p}, k), k)
 
 --------------------------------------------------------------------------------
-(* the matrix of a freshly initialised agent whose output layer has k parameters:
+(* the matrix of a freshly initialised agent whose output layer has k parameters and whose lambda is l = <<Ln, Ld>>:
    S = (1/lambda) I = (Ld/Ln) I,  G = lambda I = (Ln I)/Ld *)
-Fresh(k) == [layer |-> k, dim |-> k, N |-> Idm(k, Ld), D |-> Ln, M |-> Idm(k, Ln), hist |-> {}]
+Fresh(k, l) == [layer |-> k, dim |-> k, N |-> Idm(k, l[2]), D |-> l[1], M |-> Idm(k, l[1]), hist |-> {}, lam |-> l]
 
 (* Sherman-Morrison:  S' = S - (S g g^T S) / (1 + g^T S g)
    with S = N/D:  S g = u/D (u = N g),  g^T S g = q/D (q = g^T N g),
@@ -114,7 +119,7 @@ RankOne(r, g) ==
       D2  == r.D * den
       c   == GcdMat(N2, k, k, D2)
   IN [r EXCEPT !.N = MatDivE(N2, c, k), !.D = D2 \div c,
-               !.M = MatAdd(r.M, MatScale(Outer(g, g, k), Ld, k), k),
+               !.M = MatAdd(r.M, MatScale(Outer(g, g, k), r.lam[2], k), k),
                !.hist = BagAdd(r.hist, g)]
 
 --------------------------------------------------------------------------------
@@ -128,10 +133,10 @@ Init == \E l \in Lams : InitWith(l)
 
 Step == nops' = nops + 1 /\ UNCHANGED lam
 
-\* a new agent whose output layer has k parameters
-Create(a, k) ==
+\* a new agent whose output layer has k parameters, constructed with lambda l
+Create(a, k, l) ==
   /\ ag[a] = Nil /\ k \in 1..MaxDim
-  /\ ag' = [ag EXCEPT ![a] = Fresh(k)]
+  /\ ag' = [ag EXCEPT ![a] = Fresh(k, l)]
   /\ UNCHANGED fs /\ Step
   /\ act' = [op |-> "create", a |-> a, out |-> "init"]
 
@@ -150,29 +155,38 @@ Learn(a) ==
   /\ UNCHANGED <<ag, fs>> /\ Step
   /\ act' = [op |-> "learn", a |-> a, out |-> "carry"]
 
-(* The two outcomes the property allows for an operation that rebuilds an agent from a source record r
-   whose network now has k output-layer parameters. *)
-Outcome(r, k, out) ==
-  CASE out = "reinit" -> Fresh(k)
-    [] out = "carry"  -> [r EXCEPT !.layer = k]
-Allowed(r, k, out) == out = "reinit" \/ (out = "carry" /\ r.dim = k)
+\* test(env): an evaluation run (greedy arms, evaluation mode); the matrix is not touched
+Test(a) ==
+  /\ Live(ag[a])
+  /\ UNCHANGED <<ag, fs>> /\ Step
+  /\ act' = [op |-> "test", a |-> a, out |-> "carry"]
 
-\* any mutation; an architecture mutation may change the number of output-layer parameters to k
-Mutate(a, kind, k, out) ==
+(* The two outcomes the property allows for an operation that rebuilds an agent from a source record r
+   whose network now has k output-layer parameters and whose lambda now is l. *)
+Outcome(r, k, l, out) ==
+  CASE out = "reinit" -> Fresh(k, l)
+    [] out = "carry"  -> [r EXCEPT !.layer = k, !.lam = l]
+Allowed(r, k, l, out) == out = "reinit" \/ (out = "carry" /\ r.dim = k /\ r.lam = l)
+
+\* any mutation; an architecture mutation may change the number of output-layer parameters to k,
+\* a hyper-parameter mutation may change lambda to l
+Mutate(a, kind, k, l, out) ==
   /\ Live(ag[a]) /\ kind \in MutKinds /\ k \in 1..MaxDim
   /\ kind # "arch" => k = ag[a].layer
-  /\ Allowed(ag[a], k, out)
-  /\ ag' = [ag EXCEPT ![a] = Outcome(ag[a], k, out)]
+  /\ kind # "hp" => l = ag[a].lam
+  /\ Allowed(ag[a], k, l, out)
+  /\ ag' = [ag EXCEPT ![a] = Outcome(ag[a], k, l, out)]
   /\ UNCHANGED fs /\ Step
   /\ act' = [op |-> "mutate", a |-> a, kind |-> kind, out |-> out]
 
 \* clone / load(path) -> new agent / load_checkpoint(path) into an existing agent.  k is the number of
 \* output-layer parameters of the rebuilt network (the model checker takes the source's, a clone or a
 \* reloaded agent having the network of its source; that is the business of other properties).
+\* A clone / a reloaded agent has the lambda of its source.
 Clone(a, c, k, out) ==
   /\ Live(ag[a]) /\ c # a /\ k \in 1..MaxDim
-  /\ Allowed(ag[a], k, out)
-  /\ ag' = [ag EXCEPT ![c] = Outcome(ag[a], k, out)]
+  /\ Allowed(ag[a], k, ag[a].lam, out)
+  /\ ag' = [ag EXCEPT ![c] = Outcome(ag[a], k, ag[a].lam, out)]
   /\ UNCHANGED fs /\ Step
   /\ act' = [op |-> "clone", a |-> a, c |-> c, out |-> out]
 
@@ -184,27 +198,29 @@ Save(a, f) ==
 
 LoadNew(f, c, k, out) ==
   /\ Live(fs[f]) /\ k \in 1..MaxDim
-  /\ Allowed(fs[f], k, out)
-  /\ ag' = [ag EXCEPT ![c] = Outcome(fs[f], k, out)]
+  /\ Allowed(fs[f], k, fs[f].lam, out)
+  /\ ag' = [ag EXCEPT ![c] = Outcome(fs[f], k, fs[f].lam, out)]
   /\ UNCHANGED fs /\ Step
   /\ act' = [op |-> "loadnew", f |-> f, c |-> c, out |-> out]
 LoadInto(f, a, k, out) ==
   /\ Live(fs[f]) /\ Live(ag[a]) /\ k \in 1..MaxDim
-  /\ Allowed(fs[f], k, out)
-  /\ ag' = [ag EXCEPT ![a] = Outcome(fs[f], k, out)]
+  /\ Allowed(fs[f], k, fs[f].lam, out)
+  /\ ag' = [ag EXCEPT ![a] = Outcome(fs[f], k, fs[f].lam, out)]
   /\ UNCHANGED fs /\ Step
   /\ act' = [op |-> "loadinto", f |-> f, a |-> a, out |-> out]
 
 Outs == {"reinit", "carry"}
-CreateAny  == \E a \in Slots, k \in 1..MaxDim : Create(a, k)
+CreateAny  == \E a \in Slots, k \in 1..MaxDim, l \in LamChoices : Create(a, k, l)
 DecideAny  == \E a \in Slots : Live(ag[a]) /\ \E g \in Feats(ag[a].dim) : Decide(a, g)
 LearnAny   == \E a \in Slots : Learn(a)
-MutateAny  == \E a \in Slots, kind \in Kinds, k \in 1..MaxDim, out \in Outs : Mutate(a, kind, k, out)
+TestAny    == \E a \in Slots : Test(a)
+MutateAny  == \E a \in Slots, kind \in Kinds, k \in 1..MaxDim, out \in Outs :
+                 Live(ag[a]) /\ \E l \in (IF kind = "hp" THEN LamChoices \cup {ag[a].lam} ELSE {ag[a].lam}) : Mutate(a, kind, k, l, out)
 CloneAny   == \E a, c \in Slots, out \in Outs : Live(ag[a]) /\ Clone(a, c, ag[a].layer, out)
 SaveAny    == \E a \in Slots, f \in Files : Save(a, f)
 LoadNewAny == \E f \in Files, c \in Slots, out \in Outs : Live(fs[f]) /\ LoadNew(f, c, fs[f].layer, out)
 LoadIntoAny == \E f \in Files, a \in Slots, out \in Outs : Live(fs[f]) /\ LoadInto(f, a, fs[f].layer, out)
-Next == CreateAny \/ DecideAny \/ LearnAny \/ MutateAny \/ CloneAny \/ SaveAny \/ LoadNewAny \/ LoadIntoAny
+Next == CreateAny \/ DecideAny \/ LearnAny \/ TestAny \/ MutateAny \/ CloneAny \/ SaveAny \/ LoadNewAny \/ LoadIntoAny
 Spec == Init /\ [][Next]_vars
 
 --------------------------------------------------------------------------------
@@ -212,9 +228,9 @@ Spec == Init /\ [][Next]_vars
 Recs == {ag[a] : a \in {a \in Slots : Live(ag[a])}} \cup {fs[f] : f \in {f \in Files : Live(fs[f])}}
 
 \* G is lambda I plus the outer products of the features counted since the matrix was initialised
-GramDefOf(r) == r.M = MatAdd(Idm(r.dim, Ln), MatScale(BagGram(r.hist, r.dim), Ld, r.dim), r.dim)
+GramDefOf(r) == r.M = MatAdd(Idm(r.dim, r.lam[1]), MatScale(BagGram(r.hist, r.dim), r.lam[2], r.dim), r.dim)
 \* S G = I exactly:  (N/D)(M/Ld) = I  <=>  N M = (D Ld) I
-IsInverseOf(r) == r.D > 0 /\ MatMul(r.N, r.M, r.dim) = Idm(r.dim, r.D * Ld)
+IsInverseOf(r) == r.D > 0 /\ MatMul(r.N, r.M, r.dim) = Idm(r.dim, r.D * r.lam[2])
 SymmetricOf(r) == \A i, j \in 1..r.dim : r.N[i][j] = r.N[j][i]
 \* leading principal minors of S > 0 (D > 0, so those of N)
 Minor(A, m) == CASE m = 1 -> A[1][1]
@@ -236,9 +252,13 @@ DimFollowsLayer == \A r \in Recs : r.dim = r.layer /\ DOMAIN r.N = 1..r.dim /\ D
 LowestTerms     == \A r \in Recs : LowestTermsOf(r)
 \* a decision touches the deciding agent only; every other operation leaves all other agents alone
 Ownership == [][ \A s \in Slots : (s # (IF "c" \in DOMAIN act' THEN act'.c ELSE act'.a)) => ag'[s] = ag[s] ]_vars
-\* a freshly initialised matrix is (1/lambda) I of the size of the output layer
+\* a freshly initialised matrix is (1/lambda) I of the size of the output layer, lambda being the agent's own
 InitScale == [][ \A s \in Slots : (act'.out \in {"init", "reinit"} /\ s = (IF "c" \in DOMAIN act' THEN act'.c ELSE act'.a))
-                    => ag'[s].N = Idm(ag'[s].layer, Ld) /\ ag'[s].D = Ln /\ ag'[s].hist = {} ]_vars
+                    => ag'[s].N = Idm(ag'[s].layer, ag'[s].lam[2]) /\ ag'[s].D = ag'[s].lam[1] /\ ag'[s].hist = {} ]_vars
+\* lambda is positive and only a hyper-parameter mutation / a load from a checkpoint changes the lambda of an existing agent
+LamPositive == \A r \in Recs : r.lam[1] > 0 /\ r.lam[2] > 0
+LamStable == [][ \A s \in Slots : (Live(ag[s]) /\ Live(ag'[s]) /\ ag'[s].lam # ag[s].lam)
+                    => (act'.op \in {"clone", "loadnew", "loadinto"} \/ (act'.op = "mutate" /\ act'.kind = "hp")) ]_vars
 
 Bound == nops <= MaxOps /\ \A r \in Recs : BagCount(r.hist) <= (IF r.dim <= 2 THEN MaxDec ELSE MaxDecHi)
 ================================================================================
